@@ -1577,6 +1577,33 @@ const DOMAIN_EXTRAS: &[(&str, &str)] = &[
 	("base64Decode", "std.base64Decode(\"=\")"),
 ];
 
+/// an expression whose value is the array `b`, built as a view of natively produced byte arrays (variant by index)
+fn view_of_bytes(b: &[u8], i: u64) -> String {
+	let native = |x: &[u8]| format!("std.base64DecodeBytes(\"{}\")", my_b64(x));
+	match i % 6 {
+		0 => {
+			let x: Vec<u8> = b.iter().flat_map(|v| [*v, 0xAA]).collect();
+			format!("{}[::2]", native(&x))
+		}
+		1 => {
+			let mut x = vec![1u8, 2];
+			x.extend_from_slice(b);
+			x.push(3);
+			format!("{}[2:{}]", native(&x), 2 + b.len())
+		}
+		2 => {
+			let x: Vec<u8> = b.iter().rev().copied().collect();
+			format!("std.reverse({})", native(&x))
+		}
+		3 => format!("std.map(function(x) x, {})", bytes_lit(b)),
+		4 => native(b),
+		_ => {
+			let x: Vec<u8> = b.iter().flat_map(|v| [0x55, *v, 0xAA]).collect();
+			format!("{}[1::3]", native(&x))
+		}
+	}
+}
+
 /// all questions of the batch stages about the given inputs (keys s<i>, b<i>, t<i>, x<i>)
 fn sidecar_questions(run: &Run, cfg: &Cfg, si: &[u64], bi: &[u64], ti: &[u64], xi: &[u64]) -> Vec<Q> {
 	let strings: Vec<Vec<char>> = si.iter().map(|i| sc_string(cfg, run.seed, *i)).collect();
@@ -1634,12 +1661,17 @@ fn sidecar_questions(run: &Run, cfg: &Cfg, si: &[u64], bi: &[u64], ti: &[u64], x
 			// ill-formed input: U+FFFD is substituted, per maximal ill-formed subsequence or per byte
 			None => Want::OneOf(vec![J::Str(replace), J::Str(utf8_per_byte_replace(b))]),
 		};
-		push(q("decodeUTF8", format!("std.decodeUTF8({l})"), want, true, None), key.clone());
+		push(q("decodeUTF8", format!("std.decodeUTF8({l})"), want.clone(), true, None), key.clone());
 		let w = a["b64"].as_str().unwrap().to_owned();
 		if w != my_b64(b) {
 			run.infra(format!("base64 references disagree on {l}"));
 		}
-		push(q("base64", format!("std.base64({l})"), Want::Is(J::Str(w)), true, None), key.clone());
+		push(q("base64", format!("std.base64({l})"), Want::Is(J::Str(w.clone())), true, None), key.clone());
+		// the same array, obtained another way (natively decoded bytes, stepped / offset slices of them, reversed, mapped):
+		// an array argument is its elements, whatever produced it
+		let v = view_of_bytes(b, *i);
+		push(q("decodeUTF8", format!("std.decodeUTF8({v})"), want.clone(), true, None), key.clone());
+		push(q("base64", format!("std.base64({v})"), Want::Is(J::Str(w)), true, None), key.clone());
 	}
 	for ((i, (t, known)), a) in ti.iter().zip(&texts).zip(ans["b64"].as_array().unwrap()) {
 		let key = format!("t{i}");
